@@ -181,11 +181,13 @@ def mutation_sequences(ctx, n):
                     ok_walk = all((abs(a[0] - b[0]) + abs(a[1] - b[1]) == 1) and (cur[0, min(a[0], b[0]), a[1]] if a[1] == b[1] else cur[1, a[0], min(a[1], b[1])]) for a, b in zip(p, p[1:]))
                 except ValueError:
                     got, ok_walk = None, True
+                except Exception as ex:      # any other exception is an answer too (the statement allows a path or ValueError, nothing else)
+                    got, ok_walk = f"{type(ex).__name__} ({str(ex)[:60]})", True
                 ctx.case(["edit-seq", k, rnd, list(s), list(e)], nontrivial=rnd > 0)
                 want = d.get(e)
                 if got != want or not ok_walk:
-                    ctx.violate(f"{r}x{c} maze queried again after {rnd} in-place edit(s) of connection_list: {s}->{e} gives "
-                                f"{'ValueError' if got is None else str(got) + ' steps'}{'' if ok_walk else ' through a wall'}, BFS on the current array says {want if want is not None else 'not connected'}",
+                    ctx.violate(f"{r}x{c} maze queried{' again after ' + str(rnd) + ' in-place edit(s) of connection_list' if rnd else ''}: {s}->{e} gives "
+                                f"{'ValueError' if got is None else (str(got) + ' steps' if isinstance(got, int) else 'the exception ' + got)}{'' if ok_walk else ' through a wall'}, BFS on the current array says {want if want is not None else 'not connected (ValueError expected)'}",
                                 dict(rows=r, cols=c, edges=[[int(a), int(b), int(cc)] for a, b, cc in zip(*np.nonzero(cur))], start=list(s), end=list(e), edits=rnd, sequence=True))
                     return
             # edit in place: flip one or two lattice edges
